@@ -14,6 +14,7 @@ The clause about range lengths (`external_range_length` narrowing a long range) 
 model; it is checked on the real header with an 8-bit size_type allocator at and beyond the limit (differential + ASan).
 -/
 import SvModel.Proofs.AppendN
+import SvModel.Proofs.GrowCalls
 
 namespace SvModel.C12
 open SvModel Gen
@@ -68,6 +69,8 @@ theorem reserve_length_error (cfg : Cfg) (c n : Nat) (w : World α)
     (hbig : cfg.maxSize < n) (hcap : (w.hdr c).cap ≤ cfg.maxSize) :
     requestCapacity cfg c n w = .thrown .length w := by
   unfold requestCapacity
+  rw [requestCapacity_calls.1, requestCapacity_calls.2]
+  simp only [calcNewCapacity_checked, allocateBy_unchecked]
   have h1 : ¬ n ≤ (w.hdr c).cap := by omega
   rw [bind_run, getV_run]
   simp only []
@@ -78,6 +81,8 @@ theorem assign_n_length_error (cfg : Cfg) (c n : Nat) (s : Src α) (w : World α
     (hbig : cfg.maxSize < n) (hcap : (w.hdr c).cap ≤ cfg.maxSize) :
     assignWithCopies cfg c n s w = .thrown .length w := by
   unfold assignWithCopies
+  rw [assignWithCopies_calls.1, assignWithCopies_calls.2]
+  simp only [calcNewCapacity_checked, allocateBy_unchecked]
   have h1 : (w.hdr c).cap < n := by omega
   rw [bind_run, getV_run]
   simp only []
